@@ -25,22 +25,14 @@ func (fc *FnCtx) externCall(st *State, instr ssa.CallInstruction, callee *ssa.Fu
 		}
 		return fc.applyContract(st, instr, ex, nil, args, callee.Name(), resT, cc)
 	}
-	var cc *ssa.CallCommon
-	if instr != nil {
-		cc = instr.Common()
-	}
 	switch full {
 	case "errors.New":
-		fc.atCall(st, instr, callee.Name(), args, cc)
 		return fc.newLeafError(st, resT)
 	case "fmt.Errorf":
-		fc.atCall(st, instr, callee.Name(), args, cc)
 		return fc.errorf(st, instr, args, resT)
 	case "errors.Join":
-		fc.atCall(st, instr, callee.Name(), args, cc)
 		return fc.errorsJoin(st, instr, args, resT)
 	case "errors.As":
-		fc.atCall(st, instr, callee.Name(), args, cc)
 		return fc.errorsAs(st, instr, args, resT)
 	case "fmt.Sprintf", "fmt.Sprint", "strconv.Itoa", "net.JoinHostPort":
 		// pure string construction: arbitrary string, no effects
@@ -49,7 +41,6 @@ func (fc *FnCtx) externCall(st *State, instr ssa.CallInstruction, callee *ssa.Fu
 		return fc.onceDo(st, instr, args, resT)
 	}
 	vc.note("extern " + full + " has no contract: result havocked, no side effects assumed (used in " + fc.name + ")")
-	fc.atCall(st, instr, callee.Name(), args, cc)
 	return vc.havoc(resT, "ext_"+callee.Name(), st.alloc)
 }
 
